@@ -272,6 +272,35 @@ pub fn execute(plan: &Plan, trace: bool) -> Exec {
         );
         return ex;
     }
+    // 3c. the stream ids the application is told are QUIC's: every accepted stream of the live
+    // session is reported under the id the raw peer opened it with, and the stream the application
+    // opened under the id the raw peer received it with
+    for (i, it) in plan.items.iter().enumerate() {
+        let (tag, bidi) = match it {
+            Item::OwnUni { tag } => (*tag, false),
+            Item::OwnBi { tag } => (*tag, true),
+            _ => continue,
+        };
+        let Some(slot) = obs.slots.get(&(100 + i)) else { continue };
+        let got = if bidi { app.bi.get(&slot.id) } else { app.uni.get(&slot.id) };
+        if got != Some(&payload(tag, true)) {
+            let reported: Vec<u64> = if bidi { app.bi.iter().filter(|(_, b)| **b == payload(tag, true)).map(|(k, _)| *k).collect() } else { app.uni.iter().filter(|(_, b)| **b == payload(tag, true)).map(|(k, _)| *k).collect() };
+            ex.violation(
+                "C17/stream-id-misreported",
+                format!("the peer opened {} stream {} (QUIC id, low bits {:02b}); the handle the application got for it reports id {:?}", if bidi { "bidi" } else { "uni" }, slot.id, slot.id & 3, reported),
+            );
+            return ex;
+        }
+    }
+    for (id, bytes) in &app.opened_uni {
+        if bytes.as_slice() == b"outgoing-uni-stream" {
+            let quic: Vec<u64> = obs.rec.uni.iter().filter(|(_, s)| s.bytes == want_u).map(|(k, _)| *k).collect();
+            if !quic.contains(id) {
+                ex.violation("C17/stream-id-misreported", format!("the application's own uni stream reports id {id}; on the wire it is QUIC stream {quic:?}"));
+                return ex;
+            }
+        }
+    }
     // 4. the live session survived until its own close capsule
     let closed_ok = app.ended.len() >= 3 && app.ended.iter().all(|(_, e)| matches!(sut::app_closed(e), Some((c, _)) if c == plan.close_code as u64));
     if !closed_ok || !matches!(&obs.raw_close, RawClose::Application { code, .. } if *code == rc::H3_NO_ERROR) {
